@@ -830,8 +830,10 @@ def gen_merge16(rng):
     root = rng.choice(["m", "m", "m", "l"])
     nfiles = rng.choice([2, 2, 3])
     docs = []
+    use_anchors = rng.random() < 0.2
     for _ in range(nfiles):
-        gen = gen_docs.DocGen(rng, sets=False, anchors=False,
+        gen = gen_docs.DocGen(rng, sets=rng.random() < 0.1,
+                              anchors=use_anchors,
                               nonascii=rng.random() < 0.15,
                               multiline=rng.random() < 0.4,
                               max_nodes=rng.choice([4, 8, 12]))
@@ -858,6 +860,15 @@ def gen_merge16(rng):
         opts += ["-D", rng.choice(["auto", "yaml", "json"])]
     if rng.random() < 0.15:
         opts += ["-J", rng.choice(["0", "2"])]
+    if use_anchors:
+        opts += ["-a", rng.choice(["stop", "left", "right", "rename"])]
+    if rng.random() < 0.1:
+        opts += ["-E", rng.choice(["left", "right", "unique"])]
+    if root == "m" and rng.random() < 0.15:
+        maps = [sg for sg, n in gen_docs.positions(docs[0])
+                if n["t"] == "m" and sg]
+        if maps:
+            opts += ["-m", gen_docs.render_path(rng.choice(maps), "/")]
     if rng.random() < 0.25:
         lines = ["[defaults]"]
         for key, vals in (("arrays", ["all", "left", "right", "unique"]),
@@ -906,8 +917,9 @@ def gen_merge16(rng):
 def merge_args(opts, output=None):
     def opt(flag):
         return opts[opts.index(flag) + 1] if flag in opts else None
-    return ns(config=opt("-c"), anchors=None, arrays=opt("-A"), sets=None,
-              hashes=opt("-H"), aoh=opt("-O"), mergeat="/",
+    return ns(config=opt("-c"), anchors=opt("-a"), arrays=opt("-A"),
+              sets=opt("-E"), hashes=opt("-H"), aoh=opt("-O"),
+              mergeat=opt("-m") or "/",
               document_format=opt("-D") or "auto",
               multi_doc_mode=opt("-M") or "condense_all",
               preserve_lhs_comments=False, output=output, overwrite=None,
